@@ -129,6 +129,84 @@ def crash_case(args):
     return labels, status, detail, 0
 
 
+def worker_discover(wname, scratch):
+    """mutation points of every pool task (stage, task) in a --threads 2 run under the virtual pool"""
+    from vlib import run, crash, vpool
+    template = os.path.join(scratch, "tmpl_" + wname)
+    d = os.path.join(scratch, "case_%s_wdisc" % wname)
+    fresh_copy(template, d)
+    extra = [l.rstrip("\n").replace(template, d) for l in open(os.path.join(template, "EXTRA"))]
+    w, _ = world(wname)
+    norm = crash.make_normaliser(d, list(w["chroms"]))
+
+    def hook():
+        def task_hook(stage, i):
+            crash.Injector(0, "none", os.path.join(d, "task_%d_%d.rec" % (stage, i)), norm).install()
+        vpool.install(None, task_hook=task_hook)
+    rc = run.run_isoquant(argv_for(d, extra, threads=2), os.path.join(d, "home"), os.path.join(d, "ref.txt"), pre_hook=hook)
+    if rc != 0:
+        raise core.HarnessError("threads=2 reference run of %s failed" % wname)
+    counts = {}
+    for f in os.listdir(d):
+        if f.startswith("task_") and f.endswith(".rec"):
+            _, st, ti = f[:-4].split("_")
+            counts[(int(st), int(ti))] = len(crash.read_record(os.path.join(d, f))[0])
+    shutil.rmtree(d, ignore_errors=True)
+    return counts
+
+
+def two_worker_case(args):
+    """kill of a --threads 2 run: in pool stage `stage`, task k is in state specs[k]:
+       'skip' (not started), None (finished) or (mutation index, variant)"""
+    wname, stage, specs, scratch, wid, t0, chroms = args
+    from vlib import run, crash, vpool
+    template = os.path.join(scratch, "tmpl_" + wname)
+    d = os.path.join(scratch, "case_%s_w%d" % (wname, wid))
+    fresh_copy(template, d)
+    extra = [l.rstrip("\n").replace(template, d) for l in open(os.path.join(template, "EXTRA"))]
+    norm = crash.make_normaliser(d, chroms)
+
+    def hook():
+        def task_hook(st, i):
+            if st != stage:
+                return None
+            sp = specs[i]
+            if sp == "skip":
+                return "skip"
+            if sp is None:
+                return None
+            crash.Injector(sp[0], sp[1], os.path.join(d, "task_%d.rec" % i), norm).install()
+            return None
+        vpool.install(None, task_hook=task_hook, kill_main_after_stage=stage)
+    rc = run.run_isoquant(argv_for(d, extra, threads=2), os.path.join(d, "home"), os.path.join(d, "doomed.txt"), pre_hook=hook)
+    label = "stage%d:%s" % (stage, "|".join("skip" if sp == "skip" else ("done" if sp is None else "%s@%d" % (sp[1], sp[0])) for sp in specs))
+    if rc != 137:
+        shutil.rmtree(d, ignore_errors=True)
+        return label, "unreached", "doomed run ended with %d" % rc
+    labs = []
+    for i, sp in enumerate(specs):
+        if isinstance(sp, tuple):
+            pts, died = crash.read_record(os.path.join(d, "task_%d.rec" % i))
+            if died is None:
+                shutil.rmtree(d, ignore_errors=True)
+                return label, "unreached", "task %d never reached mutation %d" % (i, sp[0])
+            labs.append(next(l for k, l in pts if k == sp[0]))
+    rc = run.run_isoquant(["--resume", "--output", os.path.join(d, "out")], os.path.join(d, "home"), os.path.join(d, "resume.txt"))
+    status, detail = "ok", ""
+    if rc != 0:
+        import re
+        txt = open(os.path.join(d, "resume.txt")).read()
+        m = re.findall(r"(\w+(?:Error|Exception)[^\n]*)", txt)
+        status, detail = "resume-failed", "resumed run exit %d: %s" % (rc, (m[-1] if m else txt[-200:])[:200])
+    else:
+        t1 = run.read_tree(os.path.join(d, "out", "OUT"))
+        diffs = [k for k in sorted(set(t0) | set(t1)) if t0.get(k) != t1.get(k)]
+        if diffs:
+            status, detail = "wrong-output", "resumed run exit 0 but %d file(s) differ: %s" % (len(diffs), "; ".join(diffs[:3]))
+    shutil.rmtree(d, ignore_errors=True)
+    return label + " " + ",".join(labs), status, detail
+
+
 def discover(wname, scratch, resume_after=None):
     """reference (uninterrupted) run in a fresh copy; returns (tree, number of mutation points, labels)"""
     from vlib import run, crash
@@ -267,6 +345,35 @@ def run(ctx):
                     classes.setdefault(key, []).append("+".join(labels))
                     ctx.violation(key, "world %s, killed %s, resumed, killed again, resumed: %s" % (wname, labels, detail),
                                   {"world": wname, "crashes": job[1], "labels": labels})
+        # two-worker crash states: a kill of a --threads 2 run leaves each of the two chromosome tasks of a pool stage at one of
+        # its own mutation points (or not started / finished); all pairs are enumerated for both stages (world w2)
+        if wname == "w2":
+            counts = worker_discover(wname, ctx.scratch)
+            jobs3 = []
+            for stage in (0, 1):
+                na, nb = counts.get((stage, 0), 0), counts.get((stage, 1), 0)
+                step = 1 if not quick else 3
+                sa = ["skip", None] + [(i, "after") for i in range(1, na + 1, step)]
+                sb = ["skip", None] + [(i, "after") for i in range(1, nb + 1, step)]
+                for a in sa:
+                    for b in sb:
+                        if a is None and b is None:
+                            continue
+                        jobs3.append((wname, stage, (a, b), ctx.scratch, wid, t0, chroms))
+                        wid += 1
+            ctx.note("%s: two-worker crash states: %d (per-task mutation points %s)" % (wname, len(jobs3), dict(counts)))
+            for job, (label, status, detail) in zip(jobs3, core.pmap(two_worker_case, jobs3)):
+                total += 1
+                if status == "unreached":
+                    statuses[status] = statuses.get(status, 0) + 1
+                    continue
+                in_scope += 1
+                statuses["2w:" + status] = statuses.get("2w:" + status, 0) + 1
+                if status != "ok":
+                    key = "two-worker:%s:stage%d:%s" % (status, job[1], signature(status, detail))
+                    classes.setdefault(key, []).append(label)
+                    ctx.violation(key, "world %s, --threads 2 run killed in state %s, then --resume: %s" % (wname, label, detail),
+                                  {"world": wname, "stage": job[1], "specs": [list(x) if isinstance(x, tuple) else x for x in job[2]]})
         shutil.rmtree(template, ignore_errors=True)
     ctx.note("crash states: %d enumerated, %d in scope; outcomes %s" % (total, in_scope, statuses))
     for k in sorted(classes):
